@@ -268,8 +268,11 @@ def run(ctx):
         "Structure of the accounting formulas: the pragmatic Statistic sum is field-wise over every scalar field of Statistic and Timing and the overall "
         "statistic folds tour statistics with it (H1); the per-leg accumulator of create_tour computes every field from the same field of the running "
         "statistic (H2); in get_total_cost / TransportCost::cost / ActivityCost::cost / create_tour / CostObjective every product of a cost coefficient "
-        "pairs a per-distance coefficient with a distance and a per-time coefficient with a time (U1, units-of-measure over def-use).")
-    ctx.not_decided = "equality up to rounding with an independent replay of the tour; load profiles; tag correctness; time-point vs duration arithmetic."
+        "pairs a per-distance coefficient with a distance and a per-time coefficient with a time (U1, units-of-measure over def-use); report / checker / schedule "
+        "modules use the exact routing queries only, never `_approx` (R1, who-may-call); in every body that asks the provider for both distance and duration "
+        "(and cost) of a leg the canonical (from, to, departure) expressions agree (L1); place tags are paired with the place position by an enumerate() that no "
+        "element-dropping adapter precedes (G1, decided on the adapter type).")
+    ctx.not_decided = "equality up to rounding with an independent replay of the tour; load profiles; tag lookup on the writer side; time-point vs duration arithmetic."
     ctx.assumptions += ["parameter/local names distance/duration/waiting/... and the Costs field names act as unit declarations; unknown units are silent"]
     ctx.run("C03-H1", "Statistic::add is a field-wise sum over all fields; overall statistic = fold over tours", h1_statistic_sum, floor=10)
     ctx.run("C03-H2", "per-leg accumulation keeps statistic fields apart", h2_leg_accumulation, floor=8)
